@@ -98,6 +98,7 @@ class Ctx:
         self.lawcount: dict[str, int] = {}
         self.render: dict[str, str] = {}
         self.seen: set = set()
+        self.pool: dict[str, list] = {}  # every object exercised, per registry label: compared pairwise at the end (all_pairs)
         import exabgp
 
         self.res.extra['exabgp_file'] = exabgp.__file__
@@ -122,7 +123,31 @@ class Ctx:
     def law(self, v: LawViolation, extra: dict) -> None:
         self.bad(v.key, v.what, dict(extra, **v.witness), v.label or extra.get('class', '?'), v.law or '?')
 
+    def all_pairs(self, limit: int = 4000) -> None:
+        """every two distinct objects of one class: when the class says they are equal (an __eq__ which leaves a field out
+        makes neighbours equal) the contract on __eq__ holds them to L3 - same hash, same index"""
+        for label, objs in sorted(self.pool.items()):
+            uniq = {}
+            for o in objs:
+                try:
+                    uniq.setdefault(bytes(getattr(o, '_packed', b'')) + repr(getattr(o, 'afi', '')).encode(), o)
+                except Exception:  # noqa
+                    continue
+            objs = list(uniq.values())
+            n = len(objs)
+            pairs = [(i, j) for i in range(n) for j in range(i + 1, n)]
+            if len(pairs) > limit:
+                pairs = self.r.sample(pairs, limit)
+            for i, j in pairs:
+                a, b = objs[i], objs[j]
+                eq = check_eq_pair(self, a, b, label, {'class': label, 'pair': 'two distinct objects of one class', 'a': laws.safe_repr(a), 'b': laws.safe_repr(b), 'a_bytes': hx(getattr(a, '_packed', b'')), 'b_bytes': hx(getattr(b, '_packed', b''))})
+                self.res.count('all-pairs:' + ('equal' if eq else 'distinct'))
+
     def finish(self) -> Result:
+        try:
+            self.all_pairs()
+        except Exception as e:  # noqa
+            self.res.inconclusive.append(f'all_pairs raised {type(e).__name__}: {e}')
         res = self.res
         res.extra['law_evaluations'] = dict(self.lawcount)
         res.extra['contract_evaluations'] = dict(M.evals)
@@ -222,6 +247,8 @@ def exercise_nlri(ctx: Ctx, x, src: str, text: str | None = None, laws_only=None
     label = laws.nlri_label(x)
     sub = laws.nlri_sublabel(x)
     afi, safi = fam_of(x)
+    if len(ctx.pool.setdefault((sub or label) if (sub or label).startswith('nlri:') else label, [])) < 400:
+        ctx.pool[(sub or label) if (sub or label).startswith('nlri:') else label].append(x)
     for sname, neg in sessions_for(ctx, afi, safi):
         wit = {'class': label, 'source': src, 'session': sname, 'object': laws.safe_repr(x)}
         if text:
@@ -1097,6 +1124,8 @@ def decode_attr_bytes(b: bytes, code: int, neg):
 def exercise_attr(ctx: Ctx, a, src: str, text: str | None = None) -> None:
     code = int(a.ID)
     label = attr_label_of(a)
+    if len(ctx.pool.setdefault(label, [])) < 300:
+        ctx.pool[label].append(a)
     if label == 'attr:generic' and code in ctx.reg['attr']:
         # `attribute [ 0x20 0xc0 0x... ]`: the generic syntax used for a code ExaBGP knows decodes as the typed
         # attribute; the project's own self check (check_generation) whitelists exactly this, so it is logged
@@ -2037,6 +2066,68 @@ def run_configs(ctx: Ctx, part: int, parts: int) -> None:
 IP_GROUPS = [[(2, 128)], [(1, 128)], [(1, 4), (2, 4)], [(1, 1), (1, 2), (2, 1), (2, 2)]]
 
 
+REPO_TESTS_QUICK = ['test_evpn.py', 'test_mvpn.py', 'test_mup.py', 'test_bgpls.py', 'test_flow.py', 'test_flowspec.py', 'test_inet.py', 'test_ipvpn.py', 'test_label.py', 'test_l2vpn.py', 'test_vpls.py', 'test_rtc.py',
+                    'test_nlri_hash_contract.py', 'test_nlri_roundtrip.py', 'test_nlri_prefix_index.py', 'test_attribute_equality.py', 'test_attributes.py', 'test_aspath.py', 'test_communities.py',
+                    'test_collection.py', 'test_encode_decode.py', 'test_multiprotocol.py', 'test_path_attributes.py', 'test_sr_attributes.py', 'test_sr_policy.py', 'test_route.py', 'test_rib_index.py', 'test_cidr_equality.py']
+
+
+def run_repo_tests(ctx: Ctx, tier: str) -> None:
+    """the repository's own unit tests, run by pytest in a child process with the law contracts attached in record-only mode
+    (vlib/pytest_laws.py): the tests build objects this generator does not, the contracts judge them. L3 (a == b => same hash
+    and index) holds for any two instances however they were built and is a verdict; L1 (round trip) depends on the object
+    being one a parser or decoder can produce, which a test is free to ignore: those are listed, not judged."""
+    import glob as _glob
+    import json as _json
+    import shutil
+    import subprocess
+    import sys
+    import tempfile
+
+    out = tempfile.mkdtemp(prefix='exaverif-laws-')
+    try:
+        tests = os.path.join(REPO, 'tests', 'unit')
+        if not os.path.isdir(tests):
+            tests = '/repo/tests/unit'  # a scratch copy of src/ only (VERIF_REPO): the tests are inputs, read from the reference checkout
+        args = [sys.executable, '-m', 'pytest', '-q', '-p', 'no:cacheprovider', '-p', 'vlib.pytest_laws', '--timeout=600', '-x', '--no-header', '-o', 'addopts=']
+        if tier == 'quick':
+            args += [os.path.join(tests, f) for f in REPO_TESTS_QUICK if os.path.exists(os.path.join(tests, f))]
+        else:
+            args += ['-n', '8', tests, '--deselect', os.path.join(tests, 'test_gates_are_wired.py')]
+            args.remove('-x')
+        env = dict(os.environ, VERIF_LAWS_OUT=out)
+        try:
+            p = subprocess.run(args, cwd=os.path.dirname(os.path.dirname(tests)), env=env, capture_output=True, timeout=900 if tier == 'quick' else 2400)
+            tail = p.stdout.decode(errors='replace').strip().split('\n')[-1][:160]
+        except subprocess.TimeoutExpired:
+            ctx.res.inconclusive.append('repo-tests: pytest did not finish in time')
+            return
+        ctx.res.extra['repo_tests_summary'] = [tail]
+        evals = 0
+        seen: dict = {}
+        for f in _glob.glob(os.path.join(out, '*.json')):
+            d = _json.load(open(f))
+            evals += sum(d['evals'].values())
+            for k, n in d['evals'].items():
+                ctx.lawcount[k] = ctx.lawcount.get(k, 0) + n
+            for v in d['violations']:
+                seen.setdefault(v['key'], v)
+        if not evals:
+            ctx.res.inconclusive.append(f'repo-tests: no contract was evaluated ({tail})')
+            return
+        ctx.res.ok('repo-tests:contracts-evaluated', None, evals)
+        for key, v in sorted(seen.items()):
+            wit = dict(v['witness'], source="the repository's own unit tests under the law contracts")
+            if v['law'] == 'L3':
+                ctx.bad(key, v['what'], wit, v['label'] or 'repo-tests', 'L3')
+            else:
+                ctx.res.count('repo-tests:not-judged:' + key)
+                lst = ctx.res.extra.setdefault('repo_tests_round_trip_differences', [])
+                if len(lst) < 40:
+                    lst.append(f'{key}: {v["what"][:160]}')
+    finally:
+        shutil.rmtree(out, ignore_errors=True)
+
+
 def plan(tier, seed):
     base = []
     if tier == 'quick':
@@ -2063,6 +2154,7 @@ def plan(tier, seed):
     for i, d in enumerate(base):
         for hs in (0, 1):
             out.append(dict(d, shard=i, hashseed=hs))
+    out.append({'kind': 'repo-tests', 'shard': len(base), 'hashseed': 0})
     return out
 
 
@@ -2073,6 +2165,8 @@ def run_shard(desc):
         if kind == 'ip':
             for afi, safi in desc['fams']:
                 run_ip_family(ctx, afi, safi)
+        elif kind == 'repo-tests':
+            run_repo_tests(ctx, desc.get('tier', 'quick'))
         elif kind == 'other':
             run_other_nlri(ctx)
         elif kind == 'attrs':
